@@ -1,6 +1,11 @@
 #!/bin/bash
-# Build the static Coq development (Lib, Model, Properties). Offline; everything from files on disk.
-set -e
-cd "$(dirname "$0")/coq"
-coq_makefile -f _CoqProject -o Makefile >/dev/null
-timeout 3000 make -j16
+# Build the static Coq development (Lib, Model). Offline; everything from files on disk.
+cd "$(dirname "$0")"
+export PYTHONPATH=/repo:/verif PYTHONHASHSEED=0 PYTHONDONTWRITEBYTECODE=1
+/venv/bin/python - <<'P'
+import sys
+from harness import core
+ok, log = core.ensure_static_built()
+print(log[-2000:])
+sys.exit(0 if ok else 1)
+P
